@@ -152,12 +152,12 @@ def run(ctx):
     t0 = time.time()
     # 2. code -> spec: recorded runs of the real SelectorThread validated by TLC
     nf = 3
-    n = ctx.pick(50, 1500)
+    n = ctx.pick(50, 1000)
     runs = record_runs(ctx, n, nf, nops=12, nenv=8, base=ctx.seed * 1000003 + 17)
     ctx._phase("record", t0)
     t0 = time.time()
     # 3. spec -> code: TLC behaviours forced on the real threads
-    k = ctx.pick(200, 3000)
+    k = ctx.pick(200, 2000)
     depth = ctx.pick(100, 160)
     # HowSets = {{}, {"close", "atexit"}}: about half of the walks never shut down (long, closed by the
     # free-mode epilogue), the others shut down at a random point
@@ -168,6 +168,7 @@ def run(ctx):
     ctx._phase("force", t0)
     t0 = time.time()
     traces = check_runs(ctx, runs + forced, nf)
+    ctx.cov["traces_validated_against_impl"] -= len(forced)      # forced runs were already counted once
     ctx._phase("validate", t0)
     evs = sum(len(t["ev"]) for t in traces)
     ctx.note("recorded_events", evs)
